@@ -732,8 +732,19 @@ pub fn check_roll(r: &Roll) -> (Vec<Violation>, RunStats) {
         // (e.g. ts_vmax on an empty VecDeque asserts window > 0 after clamping; that is a
         // backend-independence matter, C07, recorded in DESIGN 8.3)
         Err(msg) => {
-            st.hit("rolling_driver_panicked_before_handing_out_an_iterator");
-            st.ended_early = Some(msg);
+            if Iterator::any(&mut log.streams.iter(), |r| r.aborted && r.trusted) {
+                // the driver had handed its lazy iterator to the output container and the
+                // panic came out of a pull: the iterator failed in-domain
+                viol.push(Violation {
+                    props: vec!["C09"],
+                    oracle: "H4",
+                    stage: stage.clone(),
+                    detail: format!("the internal iterator handed to the output container panicked while being pulled: {msg}"),
+                });
+            } else {
+                st.hit("rolling_driver_panicked_before_handing_out_an_iterator");
+                st.ended_early = Some(msg);
+            }
         },
         Ok(Err(e)) => st.harness_error = Some(e),
         Ok(Ok(())) => {},
